@@ -64,7 +64,7 @@ def fullBlockUncheckedProof : Bool :=
         | _ => false)
     | [] => false
 
-/-- **Not true of the unchanged `SequencerBlock::try_from_raw`** (finding F12): the per-rollup
+/-- **Not true of the unchanged `SequencerBlock::try_from_raw`** (finding FB1): the per-rollup
     Merkle proofs of an accepted full block are never verified. -/
 theorem C17_full_block_rollup_proofs_counterexample : fullBlockUncheckedProof = true := by decide +kernel
 
